@@ -98,9 +98,16 @@ func evalBatch(srcs []string) ([]*vk.Verdict, []progrun.Result, error) {
 			continue
 		}
 		verdicts[i] = refineOrder(judge(ref, res[fmt.Sprintf("x%04d", i)]), srcs[i], gotexts[i])
+		if a, b := varOrder(srcs[i]), varOrder(gotexts[i]); len(a) == len(b) && strings.Join(a, ",") != strings.Join(b, ",") {
+			reordered[srcs[i]] = true
+		}
 	}
 	return verdicts, refs, nil
 }
+
+// reordered: programs whose package-level variables are emitted in another order than declared (a
+// run-time difference of such a program is filed under the listed finding, so they are counted)
+var reordered = map[string]bool{}
 
 var oracle = vk.Register("prog", func(c Case) *vk.Verdict {
 	vs, _, err := evalBatch([]string{c.Src})
@@ -237,9 +244,9 @@ func nonTrivial(p *gosub.Program, out string) bool {
 func TestPrograms(t *testing.T) {
 	r := vk.R
 	r.Assume("Go toolchain (go1.23.5) and fmt are the reference semantics")
-	n := r.N(48, 960)
+	n := r.N(72, 960)
 	g := gosub.Gen()
-	const batch = 48
+	const batch = 36
 	reduced := map[string]bool{}
 	failed := false
 	for start := 0; start < n && !failed; start += batch {
@@ -272,6 +279,9 @@ func TestPrograms(t *testing.T) {
 			}
 			if refs[i].Exit != 0 {
 				r.Class("outcome:nonzero-exit")
+			}
+			if reordered[srcs[i]] {
+				r.Class("covered-by-known:package-var-emitted-out-of-order")
 			}
 			if refs[i].Panic != "" {
 				r.Class("outcome:uncaught-panic")
